@@ -58,6 +58,8 @@ OTHER_SITES = {
     "array-element": lambda s, t: "fn main() {\n  let x: %s = %s;\n  let a: [2]%s = [%s, %s];\n  a[0] = x;\n}\n" % (s, lit(s), t, lit(t), lit(t)),
     "dynamic-array-literal": lambda s, t: "fn main() {\n  let x: %s = %s;\n  let a: []%s = [x];\n}\n" % (s, lit(s), t),
     "optional": lambda s, t: "fn main() {\n  let x: %s = %s;\n  let o: %s? = x;\n}\n" % (s, lit(s), t),
+    "coalesce-default": lambda s, t: "fn main() {\n  let x: %s = %s;\n  let o: %s? = none;\n  let r: %s = o ?? x;\n}\n" % (s, lit(s), t, t),
+    "map-literal-value": lambda s, t: "fn main() {\n  let x: %s = %s;\n  let m := { 1 => x } as map[i32]%s;\n}\n" % (s, lit(s), t),
     "method-arg": lambda s, t: "type R struct { .F: i32 };\nfn (r: R) m(p: %s) {\n}\nfn main() {\n  let x: %s = %s;\n  let r: R = { .F = 1 } as R;\n  r.m(x);\n}\n" % (t, s, lit(s)),
 }
 
@@ -212,6 +214,16 @@ def main(run):
         run.violation("probe-sanity:" + repr(broken[0]), "identity conversion rejected: probe %r no longer compiles" % (broken[0],),
                       {"probe": probe(*broken[0])}, no_input=True)
         return
+    # open finding: map literals with identifier keys only are not validated (probe re-derived on every run)
+    for k in run.known:
+        rp = k.get("replay") or {}
+        if k.get("status") == "open" and k["key"].startswith("probe:") and "program" in rp:
+            r = common.batch_typecheck_sources([rp["program"]], Work(), "kf")[0]
+            run.case(("probe", k["key"]), nontrivial=True)
+            if r["ok"]:
+                run.violation(k["key"], k["what"], rp)
+            else:
+                print("NOTE: known finding %s no longer reproduces (move it to fixed)" % k["id"])
     ok = run.proof("Props/C11.v")
     if ok:
         return
